@@ -47,8 +47,22 @@ inline std::uint64_t mix(std::uint64_t a, std::uint64_t b)
 struct Rng
 {
     std::uint64_t s;
+    // optional byte source (libFuzzer input): decisions are read from it while it lasts, so that coverage-guided
+    // mutation steers the generators; afterwards the seeded stream continues
+    unsigned char const* src = 0;
+    std::size_t src_len = 0, src_pos = 0;
     explicit Rng(std::uint64_t seed = 1) : s(seed) {}
-    std::uint64_t next() { return splitmix(s); }
+    std::uint64_t next()
+    {
+        if (src && src_pos + 8 <= src_len)
+        {
+            std::uint64_t v;
+            std::memcpy(&v, src + src_pos, 8);
+            src_pos += 8;
+            return v;
+        }
+        return splitmix(s);
+    }
     // uniform in [0, n)
     std::uint64_t below(std::uint64_t n) { return n == 0 ? 0 : next() % n; }
     // uniform in [lo, hi]
